@@ -12,9 +12,9 @@ def make(**kw):
     return c
 
 def cfg_line(c):
-    return ("cfg n=%d head=%d manual=%d limit=%d cap=%d payload=%d inj_root=%d inj_state=%d plans=%d serial=%d history=%d log=%s defroot=%x defstate=%x"
+    return ("cfg n=%d head=%d manual=%d limit=%d cap=%d payload=%d inj_root=%d inj_state=%d plans=%d serial=%d history=%d log=%s defroot=%x defstate=%x payloadkind=%d ctx=%d"
             % (c["n"], c["head"], c["manual"], c["limit"], c["cap"], 1 if c["payload"] else 0, c["inj_root"], c["inj_state"],
-               c["plans"], c["serial"], c["history"], c["log"], c["defroot"], c["defstate"]))
+               c["plans"], c["serial"], c["history"], c["log"], c["defroot"], c["defstate"], c["payload"], c["ctx"]))
 
 def flags(c):
     f = ["-DH_N=%d" % c["n"], "-DH_HEAD=%d" % c["head"], "-DH_MANUAL=%d" % c["manual"], "-DH_LIMIT=%d" % c["limit"],
